@@ -194,6 +194,13 @@ impl Prop for C14Prop {
             let dir = "/verif/target/scratch";
             let _ = std::fs::create_dir_all(dir);
             let path = format!("{}/c14-{}-{:x}.graphml", dir, std::process::id(), case.seed);
+            // half of the cases write over an existing, longer document at the same path (a second write in a
+            // history of writes), the other half to a fresh path
+            if case.seed % 2 == 0 {
+                let filler = format!("<graphml>{}</graphml>", "<node id=\"old\"/>".repeat(40 + doc.len() / 8));
+                let _ = std::fs::write(&path, filler);
+                cx.count("probe.file_overwrites_a_longer_file");
+            }
             let r = rt::call("write_graphml_file", budget, || graphml::write_graphml_file(g, &path));
             match r {
                 Ok(Ok(())) => {
